@@ -41,13 +41,17 @@ def _run_batch(modname, batch):
     env = dict(os.environ, YLDPROLOG_VERIF='1', PYTHONDONTWRITEBYTECODE='1')
     env.setdefault('PYTHONHASHSEED', '0')
     results = {}
+    proc = subprocess.Popen([sys.executable, '-m', 'vlib.worker', modname], stdin=subprocess.PIPE, stdout=subprocess.PIPE,
+                            stderr=subprocess.PIPE, text=True, cwd=ROOT, env=env, start_new_session=True)
+    _LIVE.add(proc)
     try:
-        p = subprocess.run([sys.executable, '-m', 'vlib.worker', modname], input=json.dumps(batch),
-                           capture_output=True, text=True, timeout=budget, cwd=ROOT, env=env)
-        out, err = p.stdout, p.stderr
-    except subprocess.TimeoutExpired as e:
-        out = e.stdout.decode() if isinstance(e.stdout, bytes) else (e.stdout or '')
+        out, err = proc.communicate(json.dumps(batch), timeout=budget)
+    except subprocess.TimeoutExpired:
+        _kill(proc)
+        out, err = proc.communicate()
         err = 'worker exceeded wall budget of %ds' % budget
+    finally:
+        _LIVE.discard(proc)
     for line in out.splitlines():
         if line.startswith('RESULT '):
             try:
@@ -63,6 +67,27 @@ def _run_batch(modname, batch):
             res.append(dict(id=u['id'], ob=u.get('ob', ''), verdict='inconclusive',
                             detail='worker produced no result: ' + (err or '')[-400:]))
     return res
+
+
+_LIVE = set()
+
+
+def _kill(proc):
+    import signal
+    try:
+        os.killpg(proc.pid, signal.SIGKILL)
+    except Exception:
+        try:
+            proc.kill()
+        except Exception:
+            pass
+
+
+def _kill_all(*a):
+    for proc in list(_LIVE):
+        _kill(proc)
+    if a:
+        os._exit(143)
 
 
 def load_known():
@@ -131,6 +156,10 @@ def main(argv=None):
         for u in units:
             print(u['id'], u.get('timeout'), u.get('bounds', ''))
         return 0
+    import atexit
+    import signal
+    atexit.register(_kill_all)
+    signal.signal(signal.SIGTERM, _kill_all)
     batches = _chunks(units, a.jobs)
     results = []
     with ThreadPoolExecutor(a.jobs) as ex:
